@@ -145,11 +145,15 @@ def order_family(perm, default_ns=False, two_files=False):
         e0 = next(c for c in f0.components if c.kind == "gelement" and c.name.xml == n0.name.xml)
         e1 = next(c for c in f1.components if c.kind == "gelement" and c.name.xml == n1.name.xml)
         # `both` has members of three namespaces: its own (first, second) and, by ref=, one of each twin's
+        # a type of the start file that is called like the twins' `Node` and has a member of that other Node (not of its own type)
+        node2 = ComplexType(N("node"), Content(Group("sequence", 1, 1, [LocalElement(N("theirs"), TypeRef(n0.name.xml, 0, n0), 0, 1),
+                                                                        LocalElement(N("twin", "s"), TypeRef(n1.name.xml, 1, n1)),
+                                                                        LocalElement(N("mine"), TypeRef("int"))]), []), file=2)
         both = ComplexType(N("both"), Content(Group("sequence", 1, 1, [LocalElement(N("first"), TypeRef(n0.name.xml, 0, n0), 0, 1),
                                                                        LocalElement(N("second"), TypeRef(n1.name.xml, 1, n1), 0, 1),
                                                                        ElementRef(TypeRef(e1.name.xml, 1, e1), 0, 1),
                                                                        ElementRef(TypeRef(e0.name.xml, 0, e0), 0, 2)]), []), file=2)
-        f2.components = [cross, both] if perm[2] % 2 else [both, cross]
+        f2.components = [cross, both, node2] if perm[2] % 2 else [node2, both, cross]
         files += [f1, f2]
         start = "f2.xsd"
     if two_files == "mutual":
@@ -333,6 +337,28 @@ def schema_prefix_abbreviation_family():
         f0.components = [holder, GlobalElement(N("held"), type=TypeRef(holder.name.xml, 0, holder), file=0)]
         out.append((f"schema-prefix-is-an-abbreviation:{pfx}", SchemaSet([f0, f1], "f0.xsd", None, {"schema-prefix-equals-a-namespace-abbreviation", "member-type-foreign", "type-named-like-builtin"})))
     return out
+
+
+def derived_foreign_facets_program():
+    """A small WSDL whose request carries values of simple types that restrict simple types of ANOTHER namespace: one adds a facet
+    of its own and inherits the rest, one adds nothing, one is two steps away. Every inherited facet has to be enforced through
+    the base's check in the other module."""
+    from . import gen_c14
+    ss = gen_c14.base_program()
+    f0, f1 = ss.files
+    code, level, tag = (c for c in f1.components if c.kind == "simple")
+    short_code = SimpleType(N("short", "code"), TypeRef(tag.name.xml, 1, tag), Facets(min_length=2), None, 0)        # inherits maxLength 12
+    plain_level = SimpleType(N("plain", "level"), TypeRef(level.name.xml, 1, level), Facets(), None, 0)                # inherits 1..9
+    narrow_level = SimpleType(N("narrow", "level"), TypeRef(plain_level.name.xml, 0, plain_level), Facets(max_inclusive=5), None, 0)   # 1 from two steps away
+    choice_code = SimpleType(N("choice", "code"), TypeRef(code.name.xml, 1, code), Facets(), None, 0)                  # inherits the enumeration
+    req = next(c for c in f0.components if c.kind == "gelement" and c.name.xml == "Submit")
+    req.content.group.items += [LocalElement(N("short"), TypeRef(short_code.name.xml, 0, short_code)),
+                                LocalElement(N("plain"), TypeRef(plain_level.name.xml, 0, plain_level), 0, 1),
+                                LocalElement(N("narrow"), TypeRef(narrow_level.name.xml, 0, narrow_level), 0, 3),
+                                LocalElement(N("choice"), TypeRef(choice_code.name.xml, 0, choice_code), 0, 1)]
+    f0.components = [short_code, plain_level, narrow_level, choice_code] + f0.components
+    ss.features = {"wsdl", "soap-headers", "simple-derived-foreign", "simple-derived", "derived-foreign-facets-program"}
+    return ss
 
 
 def _code(i):
